@@ -98,8 +98,31 @@ def convert(t):
     else:
         raise SymPyException("Unable to convert " + str(t))
 
+def get_divisors(t):
+    """Return the divisors of the quotients in t (other than numerals).
+
+    SymPy simplifies x / x to 1 and evaluates 1 / 0 to complex infinity,
+    while x / 0 = 0 in the HOL library. Hence a goal can be given to
+    SymPy only if none of these divisors can be zero.
+
+    """
+    if t.is_number() or not t.is_comb():
+        return []
+    res = [t.arg] if t.is_divides() else []
+    for arg in t.args:
+        res.extend(get_divisors(arg))
+    return res
+
 def solve_goal(goal):
     """Attempt to solve goal using sympy."""
+    try:
+        for d in get_divisors(goal):
+            d = convert(d)
+            if not (d.is_number and d.is_zero is False):
+                return False
+    except SymPyException:
+        return False
+
     if goal.is_not() and goal.arg.is_equals():
         try:
             lhs, rhs = convert(goal.arg.lhs), convert(goal.arg.rhs)
@@ -145,7 +168,15 @@ def solve_with_interval(goal, cond):
 
     var = convert(cond.arg1)
     interval = convert(cond.arg)
-    
+
+    # No divisor may vanish on the interval.
+    try:
+        for d in get_divisors(goal):
+            if solveset_wrapper(convert(d), var, interval) != sympy.EmptySet:
+                return False
+    except SymPyException:
+        return False
+
     if goal.is_not() and goal.arg.is_equals():
         try:
             sympy_goal = convert(goal.arg.arg1) - convert(goal.arg.arg)
